@@ -1,14 +1,28 @@
-#[cfg(not(metrics_verif))]
+#[cfg(not(any(metrics_verif, metrics_verif_loom)))]
 use crossbeam_epoch::{pin as epoch_pin, Atomic, Guard, Owned, Shared};
-#[cfg(not(metrics_verif))]
+#[cfg(not(any(metrics_verif, metrics_verif_loom)))]
 use crossbeam_utils::Backoff;
-#[cfg(not(metrics_verif))]
+#[cfg(not(any(metrics_verif, metrics_verif_loom)))]
 use std::{
     cell::UnsafeCell,
     cmp::min,
     mem::{self, MaybeUninit},
     slice,
     sync::atomic::{AtomicUsize, Ordering},
+};
+// loom twin: the same code over loom's atomics (crossbeam itself is built with `--cfg crossbeam_loom`).
+#[cfg(metrics_verif_loom)]
+use super::loom_shim::{AtomicUsize, Ordering, SlotTrack};
+#[cfg(metrics_verif_loom)]
+use crossbeam_epoch::{pin as epoch_pin, Atomic, Guard, Owned, Shared};
+#[cfg(metrics_verif_loom)]
+use crossbeam_utils::Backoff;
+#[cfg(metrics_verif_loom)]
+use std::{
+    cell::UnsafeCell,
+    cmp::min,
+    mem::{self, MaybeUninit},
+    slice,
 };
 #[cfg(metrics_verif)]
 use crate::verif_shim::{Atomic, Backoff};
@@ -71,10 +85,28 @@ struct Block<T> {
     // Set once the block has been detached from its bucket: zero while the block accepts writes,
     // otherwise the number of slots that had been claimed when it was sealed, plus one.
     sealed: AtomicUsize,
+
+    // loom twin: one tracked cell per slot, so that loom sees the (otherwise invisible) slot accesses.
+    #[cfg(metrics_verif_loom)]
+    track: SlotTrack,
 }
 
 impl<T> Block<T> {
+    // loom twin: loom's atomics cannot be zero-initialised.
+    #[cfg(metrics_verif_loom)]
+    pub fn new() -> Self {
+        Block {
+            write: AtomicUsize::new(0),
+            read: AtomicUsize::new(0),
+            slots: unsafe { MaybeUninit::zeroed().assume_init() },
+            next: Atomic::null(),
+            sealed: AtomicUsize::new(0),
+            track: SlotTrack::new(),
+        }
+    }
+
     /// Creates a new [`Block`].
+    #[cfg(not(metrics_verif_loom))]
     pub fn new() -> Self {
         // SAFETY:
         // At a high level, all types inherent to  `Block<T>` can be safely zero initialized.
@@ -149,6 +181,8 @@ impl<T> Block<T> {
         // be as long as the number of slots written, indicated by `len`.  The value of `len` is
         // only updated once a slot has been fully written, guaranteeing the slot is initialized.
         let len = self.len();
+        #[cfg(metrics_verif_loom)]
+        self.track.read(len);
         unsafe {
             let head = self.slots.get_unchecked(0).as_ptr();
             slice::from_raw_parts(head as *const T, len)
@@ -172,6 +206,8 @@ impl<T> Block<T> {
         unsafe {
             #[cfg(metrics_verif)]
             metrics::verif::point("slot_write", self as *const _ as usize);
+            #[cfg(metrics_verif_loom)]
+            self.track.write(index);
             // Update the slot.
             self.slots.get_unchecked(index).assume_init_ref().get().write(value);
         }
@@ -192,6 +228,10 @@ impl<T> Drop for Block<T> {
         while !self.is_quiesced() {
             metrics::verif::spin();
         }
+        #[cfg(metrics_verif_loom)]
+        while !self.is_quiesced() {
+            super::loom_shim::spin();
+        }
         while !self.is_quiesced() {}
 
         // SAFETY:
@@ -199,6 +239,8 @@ impl<T> Drop for Block<T> {
         // slot is initialized.  Thus, we're only touching initialized slots here.
         unsafe {
             let len = self.len();
+            #[cfg(metrics_verif_loom)]
+            self.track.read(len);
             for i in 0..len {
                 self.slots.get_unchecked(i).assume_init_ref().get().drop_in_place();
             }
